@@ -2,6 +2,7 @@ package main
 
 import (
 	"fmt"
+	"os"
 	"go/ast"
 	"go/token"
 	"go/types"
@@ -198,6 +199,10 @@ func (e *Engine) applySummary(st *State, fr *Frame, callee *ssa.Function, fc *Fu
 		}
 	}
 	eargs := append(append([]Val{}, cargs...), results...)
+	if fc.Opts["opaque"] != "" {
+		// opaque: callers see only the (deterministic) function symbol, not the postconditions
+		return results
+	}
 	if e.Mode == ModeSpec {
 		if e.specDepth < 1 {
 			e.specDepth++
@@ -588,6 +593,12 @@ func (e *Engine) fnMods(f *ssa.Function, m map[string]bool, visiting map[*ssa.Fu
 	if fc := e.W.ByFunc[f]; fc != nil && (fc.Pure || !fc.HasAssigns) {
 		return
 	}
+	if fc := e.W.ByFunc[f]; fc != nil && fc.HasAssigns {
+		// the callee's frame is its assigns clause
+		if e.assignsMods(fc, m) {
+			return
+		}
+	}
 	if _, ok := modelTable[f.String()]; ok {
 		if modelWrites[f.String()] != "" {
 			m[modelWrites[f.String()]] = true
@@ -631,6 +642,45 @@ func (e *Engine) fnMods(f *ssa.Function, m map[string]bool, visiting map[*ssa.Fu
 	for k := range e.modset(f, visiting) {
 		m[k] = true
 	}
+}
+
+// assignsMods translates an assigns clause into heap-array prefixes; false if a form cannot be resolved.
+func (e *Engine) assignsMods(fc *FuncContract, m map[string]bool) bool {
+	for i, a := range fc.Assigns {
+		a = strings.TrimSpace(a)
+		switch {
+		case a == "heap":
+			m["*"] = true
+		case strings.HasPrefix(a, "prefix "):
+			m[strings.Trim(strings.TrimSpace(a[7:]), `"`)] = true
+		default:
+			fn := e.genFn(fc, fmt.Sprintf("vc_%s_asg%d", strings.ReplaceAll(fc.Key(), ".", "_"), i))
+			ok := false
+			for _, b := range fn.Blocks {
+				for _, ins := range b.Instrs {
+					mi, isMI := ins.(*ssa.MakeInterface)
+					if !isMI {
+						continue
+					}
+					switch t := mi.X.Type().Underlying().(type) {
+					case *types.Pointer:
+						m[addrPrefix(mi.X)] = true
+						ok = true
+					case *types.Slice:
+						m["[]"+typeName(t.Elem())+"|"] = true
+						ok = true
+					case *types.Map:
+						m[mapPrefix(t)] = true
+						ok = true
+					}
+				}
+			}
+			if !ok {
+				return false
+			}
+		}
+	}
+	return true
 }
 
 func (e *Engine) loopMods(fn *ssa.Function, ld *loopDesc) {
@@ -766,6 +816,9 @@ func (e *Engine) enterBlock(st *State, fr *Frame) bool {
 			for _, x := range as {
 				st.assume(x)
 			}
+		}
+		if trace {
+			fmt.Fprintf(os.Stderr, "loop %s havoc set: %v\n", loopName, ld.modHeap)
 		}
 		if ld.modHeap["*"] {
 			st.heap.havocPrefix("*")
